@@ -5,6 +5,7 @@ import Casket.Generated.Mitm
 import Casket.Props.C20
 import Casket.Proofs.HelloSpec
 import Casket.Proofs.HelloPool
+import Casket.Model.FCGIStatus
 /-
 C19 — Bytes from network peers cannot crash handlers or skew what is recorded.
 
@@ -345,5 +346,40 @@ theorem C19_prefix_pool_witness :
       | .error _ => none) = none ∧
     recorded [b] = .ok (some {}) := by
   decide
+
+/-! ### the Status header a FastCGI responder sends -/
+
+/-- For every value of the responder's `Status` header (any bytes: empty, blanks only, non-ASCII
+white space, no reason phrase, non-numeric, huge numbers): `statusParts[0]` and `statusParts[1]`
+in `FCGIClient.Request` are in range, and `Handler.ServeHTTP`'s treatment of the result is a value. -/
+theorem C19_status_total (v : Bytes) :
+    IsOk (Casket.FCGIStatus.parseStatus v) ∧ IsOk (Casket.FCGIStatus.serve v) :=
+  ⟨Casket.FCGIStatus.parseStatus_ok v, Casket.FCGIStatus.serve_ok v⟩
+
+/-- Every status code `Handler.ServeHTTP` hands to `http.ResponseWriter.WriteHeader` is one net/http
+accepts (100..999; `WriteHeader` panics on any other), whatever the responder put into `Status`. -/
+theorem C19_status_written_code_valid (v : Bytes) (c : Int)
+    (h : Casket.FCGIStatus.serve v = .ok (.wrote c)) : Casket.FCGIStatus.validCode c = true :=
+  Casket.FCGIStatus.serve_wrote_valid v c h
+
+/-- the judge of c19.status accepts every model answer -/
+theorem C19_status_model_verdict_ok (v : Bytes) :
+    totalVerdict (Casket.FCGIStatus.parseStatus v) = "ok" ∧
+    totalVerdict (Casket.FCGIStatus.serve v) = "ok" :=
+  ⟨totalVerdict_ok (C19_status_total v).1, totalVerdict_ok (C19_status_total v).2⟩
+
+/-- `ServeHTTP` as it was (no range guard): `Status: 99` reaches `WriteHeader(99)`, which net/http
+answers with a panic. -/
+theorem C19_prefix_status_witness :
+    Casket.FCGIStatus.serveUnguarded [57, 57] = .ok (.wrote 99) ∧
+    Casket.FCGIStatus.validCode 99 = false ∧
+    Casket.FCGIStatus.serve [57, 57] = .ok .badGateway := by
+  decide
+
+/-- non-vacuity: a Status value made of U+00A0 only is an Atoi error (502), not a fault;
+`404 Not Found` is read as code and reason phrase; several blanks stay in the reason phrase -/
+example : Casket.FCGIStatus.parseStatus [0xc2, 0xa0] = .ok none := by decide
+example : Casket.FCGIStatus.parseStatus (bytes "404 Not Found") = .ok (some ⟨404, bytes "Not Found"⟩) := by decide
+example : Casket.FCGIStatus.serve (bytes "404 Not Found") = .ok (.wrote 404) := by decide
 
 end Casket.Props.C19
